@@ -176,6 +176,10 @@ func c08check(w *Worker, pool *c08pool, r *Rng, idx int64) (produced string) {
 		produced = got
 	case 4: // Join / JoinTo
 		n := r.Intn(4)
+		if r.Chance(1, 4) {
+			// long slices: an implementation that batches elements shows at its batch boundaries
+			n = c08longs[r.Intn(len(c08longs))]
+		}
 		elems := make([]redact.RedactableString, n)
 		var parts []string
 		for i := range elems {
@@ -211,7 +215,11 @@ func c08check(w *Worker, pool *c08pool, r *Rng, idx int64) (produced string) {
 			pieces := []interface{}{redact.RedactableBytes(pool.pick(r)), 7, nil, redact.Safe("s" + startM), "u", tS2{1, "x"}, redact.RedactableString(pool.pick(r)), redact.RedactableBytes(pool.pick(r)), 2.5, tStringer{"str"},
 				&tS2{redact.Safe("login"), "alice"}, &[]interface{}{"a", redact.Safe("b")}, &map[string]interface{}{"k": "secret"}, errors.New("e"), (*tPErr)(nil), []byte("raw")}
 			var vals []interface{}
-			for i, m := 0, r.Intn(5); i < m; i++ {
+			m := r.Intn(5)
+			if r.Chance(1, 6) {
+				m = c08longs[r.Intn(len(c08longs))]
+			}
+			for i := 0; i < m; i++ {
 				vals = append(vals, pieces[r.Intn(len(pieces))])
 			}
 			var operand interface{} = vals
@@ -370,6 +378,8 @@ func runC08(c *Ctx) {
 	c.Extra("reprint_depth", depth)
 	c.res.Bound = "feedback depth " + itoa(depth) + ", " + itoa(int(perGen)) + " operations per generation"
 }
+
+var c08longs = []int{7, 8, 9, 15, 16, 17, 18, 31, 32, 33, 63, 64, 65, 100, 127, 128, 129, 257, 1025}
 
 func c08form(v interface{}) string {
 	if rv, ok := v.(reflect.Value); ok {
